@@ -259,7 +259,7 @@ func c18RunLib(base string, sc c18Scenario, v c18Vec, prog string, realDir strin
 		name string
 		m    engine.ReplaceMode
 	}{{"new", engine.NEW}, {"overwrite", engine.OVERWRITE}, {"nothing", engine.NOTHING}}
-	docMode := map[string]string{"absent": "new", "NEW": "new", "NOTHING": "nothing", "OVERWRITE": "overwrite"}[v["mode"]]
+	docMode := map[string]string{"absent": "new", "NEW": "new", "NOTHING": "nothing", "OVERWRITE": "overwrite", "empty": "new"}[v["mode"]]
 	for _, md := range modes {
 		dir := filepath.Join(base, "lib-"+md.name)
 		if err := os.MkdirAll(dir, 0o755); err != nil {
@@ -442,7 +442,13 @@ func c18Args(v c18Vec, prog string) []string {
 		args = append(args, "-formatted-json-file", c18FJsonFile)
 	}
 	if v["mode"] != "absent" {
-		args = append(args, "-replace-mode", v["mode"])
+		// the text handed to the flag: the three documented names as they are; "bogus"; an EMPTY value; a documented
+		// name in lower case; the name of an engine mode that is not a mode of the tool
+		text, special := map[string]string{"empty": "", "lower": "new", "confirm": "CONFIRM"}[v["mode"]]
+		if !special {
+			text = v["mode"]
+		}
+		args = append(args, "-replace-mode", text)
 	}
 	if v["noout"] == "1" {
 		args = append(args, "-no-output")
@@ -483,7 +489,7 @@ func opCli(fields []string) string {
 	var lib c18Lib
 	// (needed only for documented invocations: for the others the specification asks that nothing changed)
 	documented := (v["com"] == "1") != (v["src"] == "1") && !(v["json"] == "1" && v["fjson"] == "1")
-	if documented && v["prog"] != "failing" && v["files"] != "absent" && v["files"] != "noneMatching" && v["mode"] != "bogus" {
+	if documented && v["prog"] != "failing" && v["files"] != "absent" && v["files"] != "noneMatching" && v["mode"] != "bogus" && v["mode"] != "lower" && v["mode"] != "confirm" {
 		lib = c18RunLib(base, sc, v, prog, dir)
 	}
 
@@ -581,7 +587,7 @@ func init() {
 						for _, fj := range b2 {
 							for _, jf := range b2 {
 								for _, fjf := range b2 {
-									for _, mode := range []string{"absent", "NEW", "NOTHING", "OVERWRITE", "bogus"} {
+									for _, mode := range []string{"absent", "NEW", "NOTHING", "OVERWRITE", "bogus", "empty", "lower", "confirm"} {
 										for _, no := range b2 {
 											for _, prog := range []string{"find", "replace", "failing"} {
 												// the two extra scenario bits: quick tier draws them (seeded), thorough enumerates
